@@ -390,6 +390,30 @@ Proof.
 Qed.
 Print Assumptions an_order_the_source_cancelled_is_never_filled_afterwards.
 
+(* ... C04: an order the source's own _update_time reported expired after ANY history of the source is named by no fill the source
+   reports afterwards, whatever valid operations follow *)
+Theorem an_order_the_source_reported_expired_is_never_filled_afterwards : forall id tk mp0 f0 ops more f o t,
+  Forall valid_op ops -> Forall valid_op more ->
+  forall m1 rs, step_src (fst (exec_with step_src (init_market id tk mp0) (OTick f0 :: ops))) (OTick f) = Ok (m1, rs) -> In (RExpire o t) rs ->
+  forall x, In x (snd (exec_with step_src m1 more)) -> ~ fill_names x (oid o).
+Proof.
+  intros id tk mp0 f0 ops more f o t Hv Hm.
+  pose proof (resting_orders_are_within_their_lifetime_along_histories_of_the_source id tk mp0 f0 ops Hv) as HL.
+  rewrite (histories_of_the_source_from_setup id tk mp0 f0 ops Hv) in *. cbn [fst] in *.
+  pose proof (the_state_a_history_reaches_meets_the_premises id tk mp0 f0 ops Hv) as P.
+  set (m := final_state (init_market id tk mp0) (OTick f0 :: ops)) in *. cbv zeta in P. destruct P as [HB [HG Ht]].
+  intros m1 rs E Hin. rewrite (step_src_is_step_rec m (OTick f) HB HG Ht) in E.
+  rewrite every_history_of_the_source_is_a_history_of_the_model; [| | | |exact Hm].
+  - rewrite exec_rec_is_final_and_trace. cbn [snd].
+    cbn [step_rec] in E. destruct (tick m f) as [m' r'] eqn:Et. inversion E; subst.
+    assert (E1 : m1 = fst (tick m f)) by (rewrite Et; reflexivity). assert (E2 : rs = snd (tick m f)) by (rewrite Et; reflexivity).
+    rewrite E1. apply (no_fill_after_expiry m f o t more HL); [rewrite <- E2; exact Hin|exact Hm].
+  - exact (step_rec_ok m (OTick f) m1 rs HB I E).
+  - exact (proj1 (proj2 (step_rec_mkt m (OTick f) m1 rs HB HG E))).
+  - pose proof (step_rec_time_mono m (OTick f) m1 rs E). lia.
+Qed.
+Print Assumptions an_order_the_source_reported_expired_is_never_filled_afterwards.
+
 (* non-vacuity: the premises hold of a market after its first clock step, and a history with an order on each side, a round, a cancel of
    the rest and a clock step runs through the generated functions to a trade and a cancellation *)
 Example source_history_example :
